@@ -273,6 +273,8 @@ class C07Probe(EngineProbe):
             lib = [c for c in chain if is_library_module(c[0])]
             pick = lib[-1] if lib else (chain[-1] if chain else ("", "?"))
             rec.update(how="continuation", creator=pick[1], creator_module=pick[0])
+            # the continuation carries the *caller's* event type: name the mechanism by the generator instead
+            rec["event_type"] = f"negative-yield:{pick[1]}"
         else:
             st = self._stale_created.get(id(event))
             if st is not None and st[0] is event:
